@@ -79,6 +79,10 @@ def eval_times(rng, times):
     ts = [NINF, f2b(-1.0), f2b(-0.0), 0, f2b(0.5), PINF, 0x7FC00000, f2b(1e12)]
     for T in times[:40]:
         if T < (1 << 33):
-            for x in (T - 1, T - 0.5, T, T + 0.5, T + 1):
+            for x in (T - 1, T - 0.5, T, T + 0.5, T + 1, T + 0.0005, T - 0.0005, T + 0.001, T - 0.001):
                 ts.append(f2b(float(x)))
+            # the binary32 neighbours of the entry time: 'at least t' is an exact comparison
+            if 0 < T < (1 << 24):
+                ts.append(f2b(float(T)) + 1)
+                ts.append(f2b(float(T)) - 1)
     return sorted(set(ts))
